@@ -19,19 +19,22 @@ def b (x : Bool) : String := if x then "1" else "0"
 def chars? (cps : List String) : Option (List Char) := (cps.mapM hex?).map (·.map toChar)
 
 /-- `s <hex code point>*` ↦ `u=<0|1> s=<0|1>`;  `none` ↦ `s=<0|1>` (secret name `None`);
-`flow <hex>* | none` / `flow <hex>* | s <hex>*` ↦ `inserted` / `refused` -/
+`flow <dev 0|1> <sa 0|1> <login n|e|v> <hex>* | none` / `… | s <hex>*` ↦ `inserted` / `refused` -/
 def handle (line : String) : String :=
   match words line with
-  | "flow" :: rest =>
+  | "flow" :: dev :: sa :: login :: rest =>
+    let flag? (t : String) : Option Bool := if t == "1" then some true else if t == "0" then some false else none
+    let login? : Option LoginId :=
+      if login == "n" then some .none else if login == "e" then some .empty else if login == "v" then some .value else none
     let u := rest.takeWhile (· ≠ "|")
     let sec : Option (Option (List Char)) :=
       match rest.dropWhile (· ≠ "|") with
       | ["|", "none"] => some none
       | "|" :: "s" :: cps => (chars? cps).map some
       | _ => none
-    match chars? u, sec with
-    | some u, some sec => if insertReached u sec then "inserted" else "refused"
-    | _, _ => "bad-op"
+    match chars? u, sec, flag? dev, flag? sa, login? with
+    | some u, some sec, some dev, some sa, some l => if insertReachedFor u l dev sa sec then "inserted" else "refused"
+    | _, _, _, _, _ => "bad-op"
   | ["none"] => s!"s={b (validSecretNameInput none)}"
   | "s" :: cps =>
     match cps.mapM hex? with
